@@ -97,6 +97,24 @@ func specTyped(e Expression) bool {
 	return false
 }
 
+func specHasFunction(c context, name string, prefix string) bool {
+	_, ok := c.findFunction(name, prefix)
+	return ok
+}
+
+// specCountOther: how many of the first n statements are neither variable nor
+// function definitions (imported top-level code that must be kept).
+func specCountOther(stmts []Statement, n int) int {
+	if n <= 0 {
+		return 0
+	}
+	t := stmts[n-1].StatementType()
+	if t == STATEMENT_TYPE_VAR_DEFINITION || t == STATEMENT_TYPE_FUNCTION_DEFINITION {
+		return specCountOther(stmts, n-1)
+	}
+	return specCountOther(stmts, n-1) + 1
+}
+
 // specInScope: does the stack of open constructs contain s?
 func specInScope(stack []scope, n int, s scope) bool {
 	if n <= 0 {
@@ -210,8 +228,16 @@ func specInScope(stack []scope, n int, s scope) bool {
 //@   ensures[C06] never-nil-on-success: err == nil ==> result0 != nil
 //
 //@ func (*Parser).evaluateFunctionDefinition
+//@   ensures[C07] second-function-of-the-same-name-rejected: old(specHasFunction(ctx, p.peekAt(1).value, p.prefix)) ==> err != nil
 //@   ensures[C06] parameters-always-checked: err == nil ==> asType(result0, "parser.FunctionDefinition").params != nil
 //@   ensures[C07] only-at-top-level: !ctx.global() ==> err != nil
+//
+//@ func (*Parser).evaluateSwitch
+//@   loop 1 invariant[C01] one-branch-per-case: (useMock ==> calls(evaluateExpression) == ite(old(p.peekAt(1)).tokenType == lexer.OPENING_CURLY_BRACKET, 0, 1) && len(fakeIf.elifBranches) == 0) && (!useMock ==> 1 + len(fakeIf.elifBranches) == calls(evaluateExpression) - ite(old(p.peekAt(1)).tokenType == lexer.OPENING_CURLY_BRACKET, 0, 1))
+//@   ensures[C01] one-branch-per-case-in-order: err == nil && calls(evaluateExpression) > ite(old(p.peekAt(1)).tokenType == lexer.OPENING_CURLY_BRACKET, 0, 1) ==> isType(result0, "parser.If") && 1 + len(asType(result0, "parser.If").elifBranches) == calls(evaluateExpression) - ite(old(p.peekAt(1)).tokenType == lexer.OPENING_CURLY_BRACKET, 0, 1)
+//
+//@ func (*Parser).evaluateImports
+//@   loop 5 invariant[C09] imported-top-level-code-kept: len(statements) >= specCountOther(statementsTemp, rangeindex + 1)
 //
 //@ func (*Parser).evaluateBreak
 //@   ensures[C07] only-in-loop-or-switch: (err == nil) == (specInScope(ctx.scopeStack, len(ctx.scopeStack), "for") || specInScope(ctx.scopeStack, len(ctx.scopeStack), "switch"))
